@@ -12,7 +12,7 @@ use serde_json::json;
 pub static MONITOR: Monitor = Monitor {
     id: "C12",
     title: "Preformatted text keeps its lines and spacing",
-    rule: "Reference model: each source line of a <pre> is expanded (tab -> next multiple of 8 columns relative to the block's left edge, at least one space; the HTML-mandated first newline dropped; <br> = line break). Workload: (i) bounded-exhaustive single-line <pre> over atoms {a, ab, space, tab, 漢} (quick <=4 atoms, thorough <=6) at every width 1..=12; (ii) random <pre> blocks of 1..8 lines of unique words, runs of 1..5 spaces, tabs, leading/trailing spaces, empty lines, wide characters, with line lengths concentrated around the available width, optionally with inline elements / <br>, optionally inside <li> or <blockquote> (available width w-2), widths 1..=60. Oracle: if every expanded line (trailing spaces counted) fits the available width, output lines == rstrip(expanded lines) (trailing empty lines ignored); otherwise every output line is at most the available width wide, the non-space characters of all output lines concatenated equal those of the source, every source line starts on a new output line, and in rich output all text of the first output line of a source line is tagged Preformat(false) and of its continuation lines Preformat(true). Distinct/non-trivial = distinct (block, width) cases containing a tab, a run of >=2 spaces, a blank line or a line that does not fit.",
+    rule: "Reference model: each source line of a <pre> is expanded (tab -> next multiple of 8 columns relative to the block's left edge, at least one space; the HTML-mandated first newline dropped; <br> = line break). Workload: (i) bounded-exhaustive single-line <pre> over atoms {a, ab, space, tab, 漢} (quick <=5 atoms, thorough <=6) at every width 1..=12; (ii) random <pre> blocks of 1..8 lines of unique words, runs of 1..5 spaces, tabs, leading/trailing spaces, empty lines, wide characters, with line lengths concentrated around the available width, optionally with inline elements around words, around runs of white space alone (<span>    </span>, also unknown elements such as <b>, <tt>, <font>) and around a <br>, with runs of spaces that end exactly in the last column followed by a tab, optionally inside <li> or <blockquote> (available width w-2), widths 1..=60. Oracle: if every expanded line (trailing spaces counted) fits the available width, output lines == rstrip(expanded lines) (trailing empty lines ignored); otherwise every output line is at most the available width wide, the non-space characters of all output lines concatenated equal those of the source, every source line starts on a new output line, and in rich output all text of the first output line of a source line is tagged Preformat(false) and of its continuation lines Preformat(true). Distinct/non-trivial = distinct (block, width) cases containing a tab, a run of >=2 spaces, a blank line or a line that does not fit.",
     assumptions: &[
         "words in random blocks are unique tokens so that alignment of output to source lines is unambiguous",
     ],
@@ -32,7 +32,7 @@ fn exhaustive_lines(max_atoms: u32) -> u64 {
 fn plan(tier: Tier) -> Plan {
     match tier {
         Tier::Quick => Plan {
-            cases: exhaustive_lines(4) + 60_000,
+            cases: exhaustive_lines(5) + 400_000,
             time_cap_s: 40,
             case_timeout_s: 10,
             exhaustive: false,
@@ -394,7 +394,13 @@ fn gen_pre(rng: &mut Rng, avail: usize) -> Vec<Node> {
         if li > 0 {
             if rng.chance(1, 8) {
                 flush(&mut cur, &mut nodes);
-                nodes.push(El::new("br").node());
+                if rng.chance(1, 4) {
+                    // a line break that is the whole content of an inline element
+                    let tag = *rng.pick(&["span", "b", "font"]);
+                    nodes.push(El::with(tag, vec![El::new("br").node()]).node());
+                } else {
+                    nodes.push(El::new("br").node());
+                }
             } else {
                 cur.push('\n');
             }
@@ -420,13 +426,27 @@ fn gen_pre(rng: &mut Rng, avail: usize) -> Vec<Node> {
         let mut first = true;
         while width < target {
             if !first {
-                if rng.chance(1, 5) {
-                    cur.push('\t');
+                let mut ws = String::new();
+                if width < avail && rng.chance(1, 10) {
+                    // spaces up to exactly the last column, then a tab (which has to wrap)
+                    ws.push_str(&" ".repeat(avail - width));
+                    ws.push('\t');
+                    width = (avail / 8 + 1) * 8;
+                } else if rng.chance(1, 5) {
+                    ws.push('\t');
                     width = (width / 8 + 1) * 8;
                 } else {
                     let n = rng.range(1, 5).min((target - width).max(1));
-                    cur.push_str(&" ".repeat(n));
+                    ws.push_str(&" ".repeat(n));
                     width += n;
+                }
+                if rng.chance(1, 8) {
+                    // the white space is the whole content of an inline element
+                    flush(&mut cur, &mut nodes);
+                    let tag = *rng.pick(&["span", "b", "u", "tt", "font", "em", "strong", "code"]);
+                    nodes.push(El::with(tag, vec![Node::Raw(ws)]).node());
+                } else {
+                    cur.push_str(&ws);
                 }
             }
             first = false;
@@ -460,7 +480,7 @@ fn interesting(content: &[Node]) -> bool {
 fn run_case(seed: u64, idx: u64, tier: Tier, out: &mut CaseOut) {
     let mut rng = Rng::for_case(seed, "C12", idx);
     let max_atoms = match tier {
-        Tier::Quick => 4,
+        Tier::Quick => 5,
         Tier::Thorough => 6,
     };
     let nex = exhaustive_lines(max_atoms);
